@@ -44,7 +44,7 @@ def run(ctx, R, tier):
     R.rule("C09-R3", "mode session: the table is an attribute of the connection parameter; SocketConnection.close resets it", floor=3)
     R.rule("C09-R4", "mode percall: nothing is cached, the fresh instance is returned", floor=1)
     R.rule("C09-R5", "createInstance calls exactly one of creator(clazz) / clazz(), once; a creator result of another type raises; one creation per cache miss", floor=5)
-    R.rule("C09-R6", "the mode literals tested by _getInstance equal the ones the behavior decorator accepts; anything else raises", floor=2)
+    R.rule("C09-R6", "the mode literals tested by _getInstance equal the ones the behavior decorator accepts; anything else raises; only behavior and register() write the mode", floor=3)
 
     R.rule("C09-R7", "the instance tables are per daemon / per connection: created fresh in __init__, never a class-level or shared dict", floor=2)
     f = ctx.fn(GI)
@@ -303,6 +303,24 @@ def run(ctx, R, tier):
     R.check(bool(dst) and all(rcfg.guarded(n, lambda e: edge_has_fact(e, no_instancing)) for n in dst), "C09-R6", "register|default-only-if-unset",
             "register() defaults the instance mode only if the class has none, own or inherited (hasattr)", regf.loc(),
             "the default ('session', None) is stored although the class inherits a @behavior setting: an inherited 'single'/'percall' class silently becomes per-session")
+    # who may set the instance mode of a class: the behavior decorator (the user's explicit choice) and register()'s guarded default, nobody else - any other writer
+    # (a decorator that "establishes the default", a copy in a base-class hook) overrides what a subclass inherits
+    writers = []
+    for g in p.functions.values():
+        if isinstance(g.node, ast.Lambda):
+            continue
+        for st, t, k in stores_in(g.node):
+            if isinstance(t, ast.Attribute) and t.attr == "_pyroInstancing":
+                writers.append((g, st))
+        for c in [x for x in walk_no_nested(g.node) if isinstance(x, ast.Call) and isinstance(x.func, ast.Name) and x.func.id == "setattr" and len(x.args) == 3
+                  and isinstance(x.args[1], ast.Constant) and x.args[1].value == "_pyroInstancing"]:
+            writers.append((g, c))
+    allowed_w = {"Pyro5.server.behavior._behavior", "Pyro5.server.Daemon.register"}
+    stray = [(g, st) for g, st in writers if g.qualname not in allowed_w]
+    R.check(not stray and {g.qualname for g, _ in writers} == allowed_w, "C09-R6", "instancing|who-may-write", "_pyroInstancing is written by the behavior decorator and by register()'s guarded default only",
+            stray[0][0].loc(stray[0][1]) if stray else regf.loc(),
+            ("%s stores _pyroInstancing (`%s`): a class that inherits its instance mode from a @behavior base gets this value instead" % (stray[0][0].qualname, unparse(stray[0][1])))
+            if stray else "writers found: %s" % sorted(g.qualname for g, _ in writers))
     # else branch raises: function exit (fall-through) must not be reachable without return/raise
     ok = not any(e.kind != "exc" for e in cfg.exit.pred if e.src.id in cfg.live() and (e.src.kind != "stmt" or not isinstance(e.src.ast, ast.Return)))
     R.check(ok, "C09-R6", "modes|unknown-raises", "an unknown instance mode raises", f.loc(), "_getInstance can fall through and return None for an unknown mode")
